@@ -90,17 +90,42 @@ func ruleDrainFailureCloses(c *Ctx) {
 	R := c.R
 	R.Rule("R-drain-failure-closes", "E2 must-pass-through + E3", "when the discard of an unread message remainder or chunk returns an error, every path to the handler's exit closes the connection (or reports the failure to the handler, which closes on it)", 6)
 	n := 0
+	type drainItem struct {
+		site    ssa.Instruction
+		errAtom string
+	}
+	var work []drainItem
 	for _, d := range c.Sites("drain") {
+		if dv, ok := d.(ssa.Value); ok {
+			work = append(work, drainItem{d, describe(dv) + "#1"})
+		}
+	}
+	for len(work) > 0 {
+		it := work[0]
+		work = work[1:]
+		d, errAtom := it.site, it.errAtom
 		f := d.Parent()
 		if !strings.HasPrefix(funcName(f), "(*Conn).") {
 			continue
 		}
 		n++
-		dv, ok := d.(ssa.Value)
-		if !ok {
-			continue
+		// a helper that hands the discard's error back to its caller moves the obligation to its call sites
+		if k := returnsValueDescribed(f, errAtom); k >= 0 && !isExported(f) && f.Parent() == nil {
+			callers := c.callersOf(f)
+			for _, cs := range callers {
+				if cv, ok := cs.(ssa.Value); ok {
+					a := describe(cv)
+					if f.Signature.Results().Len() > 1 {
+						a = fmt.Sprintf("%s#%d", a, k)
+					}
+					work = append(work, drainItem{cs, a})
+				}
+			}
+			if len(callers) > 0 {
+				R.Ob(c.siteKey(d, "discard error handed to the caller"), c.P.InstrPos(d), true, "")
+				continue
+			}
 		}
-		errAtom := describe(dv) + "#1"
 		isSignal := func(in ssa.Instruction) bool {
 			snd, ok := in.(*ssa.Send)
 			return ok && describe(snd.X) == "("+errAtom+" == nil)"
@@ -126,4 +151,39 @@ func ruleDrainFailureCloses(c *Ctx) {
 	if f := c.A.Func("(*Conn).handleDataLMTP"); f != nil {
 		c.obMustUnder("a delivery that reports failure closes the connection", f, []string{lClose}, `<-makechan(1) == false`)
 	}
+}
+
+// returnsValueDescribed: index of the result through which every normal return of f hands out the value described
+// by d (or a phi over it and nil); -1 if some return does not.
+func returnsValueDescribed(f *ssa.Function, d string) int {
+	idx := -1
+	ok := true
+	nRet := 0
+	allInstrs(f, func(in ssa.Instruction) {
+		r, isR := in.(*ssa.Return)
+		if !isR || in.Block() == f.Recover {
+			return
+		}
+		nRet++
+		found := -1
+		for i, v := range returnedValues(r) {
+			for _, l := range leafSources(v) {
+				if l == d {
+					found = i
+				}
+			}
+		}
+		if found < 0 {
+			ok = false
+			return
+		}
+		if idx >= 0 && idx != found {
+			ok = false
+		}
+		idx = found
+	})
+	if !ok || nRet == 0 {
+		return -1
+	}
+	return idx
 }
